@@ -532,7 +532,40 @@ def r5_unsafe(ctx, F, table):
 
 # ------------------------------------------------------------------ R6 / R7
 
+WRITER_CALLS = ("write", "write_all", "write_vectored", "commit", "async_write", "async_write2", "async_write3", "async_commit", "async_write_all")
+
+
+def write_results_propagate(ctx, F, rule, want_async=False):
+    """The result of every write the reply helpers issue is propagated (`?` or returned): a failed write must not be reported
+    as a delivered reply (shared with C20 for the async helpers)."""
+    n = 0
+    for b in sorted(F.fns.values(), key=lambda x: x.key):
+        if b.self_adt != common.SRVCTX or b.kind != "assoc" or "reply" not in b.name:
+            continue
+        is_async = b.key in F.async_fns
+        if is_async != want_async:
+            continue
+        if is_async:
+            from rules.c20 import async_frame
+            body, v = async_frame(F, b)
+        else:
+            body, v = b, vf.VF(b)
+        for c in live_calls(body):
+            if c.name not in WRITER_CALLS or not ((c.self_adt or "").endswith("Writer") or c.trait == "std::io::Write"):
+                continue
+            e = v.call_expr(c)
+            used = any(x == e for x in vf.walk(v.ret()))
+            for d in live_calls(body):
+                if d.name == "branch" and any(x == e for x in vf.walk(v.call_args(d)[0])):
+                    used = True
+            n += 1
+            ctx.check(rule, "%s/%s-result#%d" % (b.name, c.name, n), used,
+                      "%s drops the result of %s: a failed write would be reported as a delivered reply" % (b.name, c.name), loc=c.loc())
+    ctx.check(rule, "write-results/sites", n >= (4 if want_async else 5), "only %d writer calls found in the %s reply helpers" % (n, "async" if want_async else "sync"))
+
+
 def r6_one_write(ctx, F):
+    write_results_propagate(ctx, F, "R6-one-write")
     b = [x for x in F.fns.values() if x.name == "reply_ok" and x.self_adt == common.SRVCTX and "sync_io" in x.key and x.kind == "assoc"]
     if len(b) != 1:
         raise core.Anchor("SrvContext::reply_ok")
